@@ -227,11 +227,17 @@ def make_world(seed, k, world):
             kw['start_idx'] = 2
         elif r < 0.35:
             kw['start_idx'] = 'nstart'
+        elif r < 0.4:
+            kw['start_idx'] = 0
         r = rng.random()
-        if r < 0.2:
+        if r < 0.15:
             kw['stop_idx'] = 5
-        elif r < 0.35:
+        elif r < 0.3:
             kw['stop_idx'] = 'nstop'
+        elif r < 0.38:
+            kw['stop_idx'] = 0          # given, and empty
+        elif r < 0.43:
+            kw['stop_idx'] = 1
         if rng.random() < 0.35:
             mn = int(rng.integers(0, 4))
             kw.update(iterate=True, min_iterations=mn,
